@@ -518,16 +518,21 @@ def _copy_value(v):
 # callback recorder and callback variants
 # --------------------------------------------------------------------------------------------------
 class _Recorder:
-    def __init__(self, readonly_results=False, guard_ids=()):
+    def __init__(self, readonly_results=False, guard_ids=(), max_calls=None):
         self.records = []  # (name, [(label, array, snap)], (array, snap) | None)
         self.readonly_results = readonly_results
         self.guard_ids = guard_ids
         self.calls = {}
+        self.total = 0
+        self.max_calls = max_calls  # deterministic budget: corrupted data may keep a solver busy for ever
 
     def wrap(self, name, fn):
         rec = self
 
         def c20_callback_wrapper(*a, **k):
+            rec.total += 1
+            if rec.max_calls is not None and rec.total > rec.max_calls:
+                raise CaseTimeout(f"callback budget of {rec.max_calls} invocations exhausted")
             args_rec = []
             for i, x in enumerate(a):
                 if isinstance(x, np.ndarray):
@@ -862,7 +867,7 @@ class _time_limit:
             if self.seconds > 0 and hasattr(signal, "setitimer") and threading.current_thread() is threading.main_thread():
 
                 def handler(signum, frame):
-                    raise CaseTimeout(f"run exceeded {self.seconds:g} s")
+                    raise CaseTimeout("run exceeded the wall-clock limit")
 
                 self._signal = signal
                 self._old = signal.signal(signal.SIGALRM, handler)
@@ -904,6 +909,8 @@ def _execute(
     alias=None,  # (target, expr, "same" | "copy")
     cb_override=None,  # name -> ("src", source) | ("cached", const, copy_out)
     cb_readonly_results=False,
+    time_limit=None,
+    max_cb_calls=None,
 ):
     out = _Outcome()
     out.fp = None
@@ -949,7 +956,7 @@ def _execute(
 
         # callbacks
         guard = _module_level_array_ids() if (readonly or cb_readonly_results) else ()
-        recorder = _Recorder(readonly_results=cb_readonly_results, guard_ids=guard)
+        recorder = _Recorder(readonly_results=cb_readonly_results, guard_ids=guard, max_calls=max_cb_calls)
         cached_fns = {}
         for name in case.callback_names:
             fn = ns[name]
@@ -979,7 +986,7 @@ def _execute(
         values = []
         np.random.seed(_NP_SEED)
         try:
-            with _time_limit(_CASE_TIME_LIMIT):
+            with _time_limit(min(_CASE_TIME_LIMIT, time_limit) if time_limit else _CASE_TIME_LIMIT):
                 res = eval(c_call, ns)
                 ns["result"] = res
                 values.append(res)
@@ -989,7 +996,8 @@ def _execute(
             out.exc = e
             out.exc_text = _exc_text(e)
             out.exc_type = type(e).__name__
-            out.site, out.via = _site_from_exc(e)
+            if not isinstance(e, CaseTimeout):
+                out.site, out.via = _site_from_exc(e)
 
         # comparisons (the harness only reads)
         out.mutations = snap.compare()
@@ -1065,6 +1073,8 @@ def _dedupe(obs):
 
 def _readonly_site(case, **kw):
     """Site of the first write attempt, found by re-running with read-only data."""
+    kw.setdefault("time_limit", 15.0)
+    kw.setdefault("max_cb_calls", 200000)
     o = _execute(case, **kw)
     if o.exc is not None and _is_readonly_error(o.exc):
         return o.site, o.via, o.exc_text
@@ -1147,6 +1157,17 @@ def _result(case, mode, obs, fp, exc_text, skipped=False, elapsed=0.0, **extra):
     return d
 
 
+def _variant_limit(reference_elapsed):
+    """Wall-clock backstop of a variant run (the deterministic bound is ``_call_budget``)."""
+    return max(10.0, 100.0 * float(reference_elapsed))
+
+
+def _call_budget(reference):
+    """Callback-invocation budget of a variant run: an aliasing defect may keep an ODE solver
+    busy for ever; counting invocations (not seconds) keeps the outcome deterministic."""
+    return max(2000, 20 * sum(reference.cb_calls.values()))
+
+
 def _plain_outcome(case):
     if case._plain is None:
         case._plain = _execute(case)
@@ -1183,7 +1204,9 @@ def _run_plain(case, t0):
 
 def _run_readonly(case, t0):
     plain = _plain_outcome(case)
-    out = _execute(case, readonly=True, cb_readonly_results=True)
+    out = _execute(
+        case, readonly=True, cb_readonly_results=True, time_limit=_variant_limit(plain.elapsed), max_cb_calls=_call_budget(plain)
+    )
     obs = []
     if out.exc is not None:
         if _is_readonly_error(out.exc):
@@ -1230,11 +1253,11 @@ def _run_same(case, t0):
     skipped_pairs = []
     for target, expr in case.alias_pairs:
         variant = f"{target}<-{expr}"
-        a = _execute(case, alias=(target, expr, "same"))
-        if a.skipped:
-            skipped_pairs.append(a.skipped)
-            continue
         r = _execute(case, alias=(target, expr, "copy"))
+        if r.skipped:
+            skipped_pairs.append(r.skipped)
+            continue
+        a = _execute(case, alias=(target, expr, "same"), time_limit=_variant_limit(r.elapsed), max_cb_calls=_call_budget(r))
         ran += 1
         if fp0 is None:
             fp0, exc0 = a.fp, a.exc_text
@@ -1245,9 +1268,10 @@ def _run_same(case, t0):
                     "same",
                     "alias_result_differs",
                     variant,
-                    a.site or a.via,
+                    None,
                     f"aliased call: {a.exc_text}; un-aliased call with equal values: {r.exc_text}",
                     variant=variant,
+                    raised_at=a.site or a.via,
                 )
             )
         elif a.exc is None and not _fp_equal(a.fp, r.fp):
@@ -1292,8 +1316,8 @@ def _run_cb(case, t0, mode):
             var = {name: ("cached", const, False)}
             ref = {name: ("cached", const, True)}
             label = f"{name}=cached constant {const!r}"
-        v = _execute(case, cb_override=var)
         r = _execute(case, cb_override=ref)
+        v = _execute(case, cb_override=var, time_limit=_variant_limit(r.elapsed), max_cb_calls=_call_budget(r))
         if fp0 is None:
             fp0, exc0 = v.fp, v.exc_text
         if v.exc_type != r.exc_type:
@@ -1303,9 +1327,10 @@ def _run_cb(case, t0, mode):
                     mode,
                     "alias_result_differs",
                     f"{name}->result",
-                    v.site or v.via,
+                    None,
                     f"{label}: {v.exc_text}; reference callback (fresh copy): {r.exc_text}",
                     variant=name,
+                    raised_at=v.site or v.via,
                 )
             )
         elif v.exc is None and not _fp_equal(v.fp, r.fp):
